@@ -201,6 +201,10 @@ def handle : List String → String
           (run.2, acc.2 ++ [showChain run.1])) ([], [])
         "#".intercalate r.2
     | _ => "bad-op"
+  | ["ngramnew", mn, mx] =>
+    match mn.toNat?, mx.toNat? with
+    | some mn, some mx => if ngramNewOk mn mx then "ok" else "err"
+    | _, _ => "bad-op"
   | ["collapse", l] =>
     match (natList l).bind pairs with
     | some ps => showNatList ((collapse ps).flatMap (fun h => [h.1, h.2]))
